@@ -158,6 +158,102 @@ def main(run):
             run.sample({"k": k, "p": pe, "snapshot_n": n0, "runs": runs,
                         "retention_observed_vs_law": {str(t + 1): [incl[n0][t] / runs, law(k, pe, n0, t)] for t in picks(k, n0)[:8]},
                         "acceptance": [accepts, offers], "slot_counts": dict(slots)})
+    # ---- streams with REPEATED feature vectors (low-cardinality / constant data, the same dict object sent again): the
+    #      observations are distinguishable by their targets only (store_targets=True, distinct targets), a stored observation is
+    #      identified by its target; same oracles: p=1 stores every arrival, acceptance p, uniform slot, retention law
+    rgrid = [(1, 0.5, 6), (2, None, 9), (3, 1.0, 12), (4, 1.0, 20), (3, 0.9, 8), (5, None, 30), (5, 0.5, 15), (2, 1.0, 7),
+             (8, 0.3, 40), (10, 1.0, 25), (4, None, 40), (6, 0.7, 20), (1, None, 5), (7, 1.0, 16)]
+    for _ in range(2):
+        k = grnd.choice([2, 3, 4, 6, 8])
+        rgrid.append((k, round(grnd.uniform(0.05, 0.98), 3), 3 * k + grnd.randrange(2, 9)))
+    modes = ["constant", "same-object", "two-values", "mixed", "small-alphabet"]
+    moff = grnd.randrange(len(modes))
+    runs_r = 30000 if thorough else 3000
+    for j, (k, p, n) in enumerate(rgrid):
+        if j % nsh != sh:
+            continue
+        pe = 1 / k if p is None else p
+        mode = modes[(j + moff) % len(modes)]
+        run.see("repeated-feature-mode", mode)
+        shared = {"colour": "red", "size": 3}
+        if mode == "constant":
+            feat = lambda i: {"a": 1, "b": 0}                                  # equal by value, a fresh object every time
+        elif mode == "same-object":
+            feat = lambda i: shared                                            # the caller re-sends one dict object
+        elif mode == "two-values":
+            feat = lambda i: {"colour": "red", "shape": i % 2}
+        elif mode == "mixed":
+            feat = lambda i: {"v": i % 3} if i % 2 else {"t": i}               # repeated and never-repeated vectors interleaved
+        else:
+            feat = lambda i: {"c": (i * i + i // 3) % 4, "d": 0.5}
+        tgt = (lambda i: i) if j % 2 else (lambda i: ("target", i))
+        untgt = (lambda y: y) if j % 2 else (lambda y: y[1])
+        random.seed(run.shard_seed * 15485863 + j)
+        nb = k if k <= 10 else 10
+        ct = CellTests(len(picks(k, n)) + 1 + nb, eps=EPS / (len(GRID) + 3) / 4)
+        incl = collections.Counter()
+        slots = collections.Counter()
+        offers = accepts = equal_seen = 0
+        fails = []
+        for _ in range(runs_r):
+            st = GeometricReservoirStorage(size=k, constant_probability=p, store_targets=True)
+            prev = None
+            for i in range(n):
+                x = feat(i)
+                if i >= k and x in st.get_data()[0]:
+                    equal_seen += 1          # the reservoir already holds an observation with these feature values
+                st.update(x, tgt(i))
+                xs, ys = st.get_data()
+                cur = [untgt(y) for y in ys]
+                if len(xs) != len(cur) or any(xs[s] != feat(cur[s]) for s in range(len(cur))):
+                    fails.append(("replacement-shape", f"k={k} p={pe} features '{mode}': after update {i + 1} the stored features {list(xs)} "
+                                                       f"do not belong to the stored targets {cur}"))
+                    break
+                if i >= k:
+                    if len(cur) != k:
+                        fails.append(("replacement-shape", f"k={k} p={pe} features '{mode}': a full reservoir holds {len(cur)} items after update {i + 1}"))
+                        break
+                    offers += 1
+                    if i in cur:
+                        accepts += 1
+                        ch = [s for s in range(k) if prev[s] != cur[s]]
+                        if len(ch) != 1 or cur[ch[0]] != i:
+                            fails.append(("replacement-shape", f"k={k} p={pe} features '{mode}': update changed slots {ch}: {prev} -> {cur}"))
+                        else:
+                            slots[ch[0]] += 1
+                    elif cur != prev:
+                        fails.append(("replacement-shape", f"k={k} p={pe} features '{mode}': contents changed without storing the new item: {prev} -> {cur}"))
+                    if pe == 1.0 and i not in cur:
+                        fails.append(("p1-newest-not-stored", f"k={k} p=1 features '{mode}' (observations identified by their targets): "
+                                                              f"observation #{i + 1} = ({x}, {tgt(i)!r}) was not stored; targets held: {cur}"))
+                prev = cur
+            for t in cur:
+                incl[t] += 1
+        run.ok(runs_r, kind="repeated-features")
+        run.count("repeated-feature-streams", runs_r)
+        run.count("repeated-feature-offers-with-equal-features-stored", equal_seen)
+        for t in picks(k, n):
+            r = ct.test(incl[t], runs_r, law(k, pe, n, t), f"k={k} p={pe:.3g} n={n} features '{mode}' retention of arrival #{t + 1} (by target)")
+            if r:
+                fails.append(("inclusion-law", r))
+            if incl[t]:
+                run.nontriv(("ret-rep", k, p, n, t, mode))
+        r = ct.test(accepts, offers, pe, f"k={k} p={pe:.3g} features '{mode}' acceptance frequency once full")
+        if r:
+            fails.append(("acceptance-probability", r))
+        for s in range(nb):
+            r = ct.test(slots[s], accepts, 1 / nb, f"k={k} p={pe:.3g} features '{mode}' replaced slot {s}")
+            if r:
+                fails.append(("slot-uniformity", r))
+        mdd = max(mdd, ct.max_mdd)
+        run.count("cell-tests", ct.done)
+        seen = set()
+        for mech, msg in fails:
+            if mech in seen:
+                continue
+            seen.add(mech)
+            run.violation(mech, msg + f" ({runs_r} runs)", {"k": k, "p": p, "n": n, "runs": runs_r, "features": mode, "store_targets": True,
+                                                            "seed": run.shard_seed * 15485863 + j})
     # ---- thin slices: EVERY size 1..16 with a probability drawn from VERIF_SEED, coarse retention / acceptance tests
     ks = [k for k in range(1, 17) if k % nsh == sh]
     runs_s = 2500 if not thorough else 30000
@@ -225,17 +321,32 @@ def main(run):
         if ci % nsh != sh:
             continue
         pe = 1 / k if p is None else float(p)
-        for warm in (0, 1, 7):
+        for warm, rep in ((0, 0), (1, 0), (7, 0), (2 + ci % 3, 1 + ci % 2)):
             random.seed(run.shard_seed + ci)
-            base = GeometricReservoirStorage(size=k, constant_probability=p)
-            for i in range(k + warm):
-                base.update({"t": i})
-            before = [d["t"] for d in base.get_data()[0]]
+            if rep:
+                # repeated feature vectors (rep=1: constant, rep=2: two values); the observations differ by their targets only,
+                # so the stored PAIRS are identified by target
+                feat = (lambda i_: {"a": 1, "b": 0}) if rep == 1 else (lambda i_: {"a": 1, "b": i_ % 2})
+                base = GeometricReservoirStorage(size=k, constant_probability=p, store_targets=True)
+                for i in range(k + warm):
+                    base.update(feat(i), i)
+                before = list(base.get_data()[1])
+                run.count("exact-law-repeated-feature-states")
 
-            def scen():
-                st = copy.deepcopy(base)
-                st.update({"t": 10 ** 6})
-                return tuple(d["t"] for d in st.get_data()[0])
+                def scen():
+                    st = copy.deepcopy(base)
+                    st.update(feat(k + warm), 10 ** 6)
+                    return tuple(st.get_data()[1])
+            else:
+                base = GeometricReservoirStorage(size=k, constant_probability=p)
+                for i in range(k + warm):
+                    base.update({"t": i})
+                before = [d["t"] for d in base.get_data()[0]]
+
+                def scen():
+                    st = copy.deepcopy(base)
+                    st.update({"t": 10 ** 6})
+                    return tuple(d["t"] for d in st.get_data()[0])
             try:
                 lawd, runs_x, fsites = exact_law(scen)
             except (Budget, NotImplementedError):      # (a draw form the scripted generators do not model: this sub-monitor cannot judge)
@@ -258,7 +369,8 @@ def main(run):
                 slot_p.append(float(lawd.get(tuple(after), 0)))
             if abs(sum(float(q) for q in lawd.values()) - 1) > 1e-9 or abs(stay + sum(slot_p) - 1) > 1e-9:
                 okshape = False
-            replay = {"k": k, "p": repr(p), "state": before, "exact_law": {str(o): float(q) for o, q in lawd.items()}}
+            replay = {"k": k, "p": repr(p), "state": before, "exact_law": {str(o): float(q) for o, q in lawd.items()},
+                      "features": ["distinct", "constant dict, distinct targets", "two feature vectors, distinct targets"][rep]}
             if not okshape:
                 run.violation("replacement-shape", f"k={k} p={pe}: one update from {before} leads to states other than 'unchanged' / "
                                                    f"'one slot replaced by the new item': {replay['exact_law']}", replay)
@@ -267,7 +379,7 @@ def main(run):
                                                         f"probability exactly {sum(slot_p):.12g}, not {pe:.12g}", replay)
             elif any(abs(q - pe / k) > (1e-6 if type(p).__name__ == "float32" else 1e-9) for q in slot_p):
                 run.violation("slot-uniformity", f"k={k} p={pe}: slots are replaced with probabilities {slot_p}, expected {pe / k:.12g} each", replay)
-            run.nontriv(("exact", k, repr(p), warm))
+            run.nontriv(("exact", k, repr(p), warm, rep))
     # ---- deterministic clauses via the scripted generator (shard 0)
     if sh == 0:
         for k in (1, 2, 3):
